@@ -29,6 +29,7 @@ def literal(new):
 
 # ----------------------------------------------------------------------------- batch generators
 NEWS = ['X', '', 'new words', 'Z', 'replacement text here']
+NL_TARGETS = []      # non-empty while a generator wants targets that cross a line break inside a paragraph
 def pick_target(rng, txt, maxlen=14):
     if len(txt) < 2: return None
     a = rng.randrange(len(txt)); ln = rng.randint(1, min(maxlen, len(txt) - a))
@@ -37,7 +38,8 @@ def pick_target(rng, txt, maxlen=14):
         if ws:
             i = rng.randrange(len(ws)); j = min(len(ws) - 1, i + rng.randint(0, 2)); a, ln = ws[i][0], ws[j][1] - ws[i][0]
     t = txt[a:a + ln]
-    return t if t.strip() and '\n' not in t else None
+    if '\n' in t and not (NL_TARGETS and t.strip('\n') == t and t.count('\n') == 1): return None      # (a line break inside the target: only where asked for)
+    return t if t.strip() else None
 def variants(rng, t):
     k = len(t) // 2
     ws = t.split(' ')
@@ -57,9 +59,20 @@ def gen_batch(rng, din, raw, clean, kind='exact'):
     if kind == 'exact':
         for _ in range(rng.randint(1, 3)):
             if not acc: break
+            if rng.random() < .15: NL_TARGETS.append(1)
             t = pick_target(rng, rng.choice(acc))
+            del NL_TARGETS[:]
             if not t: continue
-            edits.append((t, variants(rng, t), rng.choice([None, None, 'because ' + t[:5]]), None))
+            edits.append((t, variants(rng, t) if '\n' not in t else rng.choice(['X', '', t.replace('\n', ' ') + ' more']), rng.choice([None, None, 'because ' + t[:5]]), None))
+        if acc and rng.random() < .2:           # two targets that touch (no character between them), in either order of the batch
+            base = rng.choice(acc)
+            if len(base) >= 6 and '\n' not in base:
+                a = rng.randrange(0, len(base) - 4); b = rng.randint(a + 1, min(len(base) - 2, a + 8)); c_ = rng.randint(b + 1, min(len(base), b + 8))
+                t1, t2 = base[a:b], base[b:c_]
+                if t1.strip() and t2.strip():
+                    pair = [(t1, rng.choice(['L', t1.upper(), '']), None, None), (t2, rng.choice(['R', t2 + '!', 'new']), None, None)]
+                    if rng.random() < .5: pair.reverse()
+                    edits = pair
     elif kind == 'mixed':
         for _ in range(rng.randint(1, 4)):
             x = rng.random()
@@ -81,8 +94,9 @@ def gen_batch(rng, din, raw, clean, kind='exact'):
                     if len(txt) > 3:
                         a = rng.randrange(len(txt) - 2); t = txt[a:a + rng.randint(2, len(txt) - a)]
                         if '\n' not in t: edits.append((t, 'undeleted', None, None))
-            if rng.random() < .25 and raw:                                                               # raw-view target straddling the boundary of a tracked deletion / insertion
+            if rng.random() < .35 and raw:                                                               # raw-view target straddling the boundary of a tracked deletion / insertion
                 ms = list(re.finditer(r'\{--|--\}|\{\+\+|\+\+\}', raw))
+                if rng.random() < .6: ms = [m for m in ms if m.group(0) == '{--' and m.start() > 0 and raw[m.start() - 1] not in '}\n'] or ms      # live text running into a deletion
                 if ms:
                     m = rng.choice(ms); a = max(0, m.start() - rng.randint(1, 6)); t = raw[a:m.end() + rng.randint(1, 6)]
                     if '\n' not in t: edits.append((t, rng.choice(['straddle', '']), None, None))
@@ -90,6 +104,15 @@ def gen_batch(rng, din, raw, clean, kind='exact'):
             if rng.random() < .1 and raw:                                                                # target taken from the raw view (may include markup)
                 a = rng.randrange(len(raw)); t = raw[a:a + rng.randint(2, 12)]
                 if '\n' not in t: edits.append((t, 'rawrepl', None, None))
+        if raw and rng.random() < .15:                                                                   # the same target at the very start of the document twice (conflict at offset 0)
+            m = re.match(r'[A-Za-z0-9\u00c0-\u024f]+', raw)
+            if m and len(m.group(0)) >= 2: edits += [(m.group(0), m.group(0) + ' very', None, None)] * 2
+        if raw and rng.random() < .15:                                                                   # an offset-addressed edit, sometimes at offset 0
+            m = re.match(r'[A-Za-z0-9\u00c0-\u024f]+', raw)
+            if m and rng.random() < .6: edits.append((m.group(0), 'FIRST', None, 0))
+            else:
+                ws = [w for w in re.finditer(r'[A-Za-z0-9]{3,}', raw)]
+                if ws: w = rng.choice(ws); edits.append((w.group(0), 'IDX', rng.choice([None, 'c']), w.start()))
         rng.shuffle(edits)
     elif kind == 'blocks':
         for _ in range(rng.randint(1, 2)):
@@ -97,7 +120,7 @@ def gen_batch(rng, din, raw, clean, kind='exact'):
             t = pick_target(rng, rng.choice(acc))
             if t: edits.append((t, rng.choice(BLOCK_NEWS).replace('{t}', t), rng.choice([None, 'why']), None))
         if rng.random() < 0.25 and raw:      # an offset-addressed pure insertion of block text
-            edits = [('', rng.choice(BLOCK_NEWS).replace('{t}', 'ins'), rng.choice([None, 'c']), rng.randrange(len(raw) + 1))]
+            edits = [('', rng.choice(BLOCK_NEWS).replace('{t}', 'ins'), rng.choice([None, 'c']), 0 if rng.random() < .3 else rng.randrange(len(raw) + 1))]
     return [e for e in edits if e is not None]
 
 BLOCK_NEWS = ['{t}\nsecond line', '# Heading\nbody line', '## Sub {t}', 'line one\n\nline two', '{t}\n', '\n{t}', '# A\n#\nB',
